@@ -533,6 +533,27 @@ func c19(p *core.Program, r *core.Report, only string) {
 		}
 	}
 	r.Floor(R8, 2)
+	// ---- R9: the manager calls into the provider with its own mutex released
+	const R9 = "C19.R9 provider-calls-are-open-calls"
+	r.Rule(R9, "every call of a provider method (Start, Shutdown, Announce, Unannounce) from the mDNS manager is made with no manager mutex held on any path: the provider's Shutdown waits, under the provider mutex, for the listener goroutine, and the listener delivers browse results into the manager (which takes the manager mutex); a manager that holds its mutex while it waits for the provider mutex closes that cycle and shutdown never returns")
+	{
+		provI := p.Named("api", "MdnsProviderInterface")
+		if provI == nil {
+			r.Unresolved(R9, "api.MdnsProviderInterface")
+		} else {
+			checkOpenCalls(p, r, R9, fns, "mdns.MdnsManager.", func(in ssa.Instruction) string {
+				c := core.Common(in)
+				if c == nil || !c.IsInvoke() {
+					return ""
+				}
+				if core.NamedOf(c.Value.Type()) == provI {
+					return "provider." + c.Method.Name()
+				}
+				return ""
+			})
+			r.Floor(R9, 3)
+		}
+	}
 	// ---- R4
 	nlisten := 0
 	for _, fn := range fns {
